@@ -95,7 +95,16 @@ func (s *gkvp) SerializeValueTo(pc *PrintCtx) {
 }
 
 func (s Attrs) SerializeValueTo(pc *PrintCtx) {
+	if pc.jsonMode {
+		// a group is a nested JSON object
+		pc.pcAppendByte('{')
+		pc.firstMember = true
+	}
 	_ = serializeAttrs(pc, s)
+	if pc.jsonMode {
+		pc.firstMember = false
+		pc.pcAppendByte('}')
+	}
 }
 
 func dedupeSlice[S ~[]E, E any](x S, cmp func(a, b E) bool) S {
@@ -166,7 +175,11 @@ func serializeAttrs(pc *PrintCtx, kvps Attrs) (err error) { //nolint:revive
 		}
 
 		if pc.noColor {
-			pc.pcAppendComma()
+			if pc.firstMember {
+				pc.firstMember = false // no comma before the first member of a nested JSON object
+			} else {
+				pc.pcAppendComma()
+			}
 		} else {
 			pc.pcAppendByte(' ')
 			ct.echoColorAndBg(pc, pc.clr, pc.bg)
